@@ -776,7 +776,8 @@ func checkRootExact(c *core.Ctx, l *core.Ledger) {
 			if len(fail) > 0 && core.AllPathsThroughEdges(f, ret.Block(), fail) {
 				return
 			}
-			if pathAvoidingInstrAndEdges(f, appendStore, hit, in) {
+			// a path through the failure edge of an error test is not a successful call, wherever it returns
+			if pathAvoidingInstrAndEdges(f, appendStore, append(append([]core.Edge{}, hit...), fail...), in) {
 				ok = false
 				where = c.Rel(in.Pos())
 			}
